@@ -1072,6 +1072,14 @@ MUTANTS = [
     dict(id="C07.h-commit-sets-comitted-before-the-guarded-block", prop="C07", file=CG + "input_session.rs",
          old="        let engine = self.engine.clone();\n\n        async move {\n            self.comitted = true;\n", new="        let engine = self.engine.clone();\n        self.comitted = true;\n\n        async move {\n",
          expect="C07.h/InputSession::commit/runs-to-completion"),
+    dict(id="C09.i-D16-reintroduced-streamed-member-yielded-again", prop="C09", file="crates/storage/src/key_of_set_map/cache.rs",
+         old="                for item in db_iter.by_ref() {\n                    if snapshot.removed.remove(&item).not() {\n                        snapshot.added.remove(&item);\n",
+         new="                for item in db_iter.by_ref() {\n                    if snapshot.removed.remove(&item).not() {\n",
+         expect="C09.i/merge/store-member-is-taken-out-of-the-staged-additions"),
+    dict(id="C09.i-D16-half-constructed-member-yielded-again", prop="C09", file="crates/storage/src/key_of_set_map/cache.rs",
+         old="                    if snapshot.removed.contains(&item).not() {\n                        snapshot.added.remove(&item);\n",
+         new="                    if snapshot.removed.contains(&item).not() {\n",
+         expect="C09.i/merge/store-member-is-taken-out-of-the-staged-additions"),
     dict(id="C12.k-varint-reader-u128-stops-on-set-bit", prop="C12", file="crates/serialize/src/postcard.rs",
          old="            result |= u128::from(byte & 0x7F) << shift;\n\n            if byte & 0x80 == 0 {",
          new="            result |= u128::from(byte & 0x7F) << shift;\n\n            if byte & 0x80 != 0 {",
